@@ -48,8 +48,17 @@ pub trait Read<'de>: private::Sealed {
 
     /// Consuming `n` number of bytes
     fn read_bytes(&mut self, n: usize) -> Result<Vec<u8>, io::Error> {
-        let mut buf = vec![0u8; n];
-        self.read_exact(&mut buf)?;
+        // `n` usually comes straight from a size field on the wire. Never allocate what the
+        // peer merely claims: grow the buffer as the bytes actually arrive, so that a
+        // 5-byte `vbin32`/`str32` header announcing 4 GiB costs at most one chunk.
+        const CHUNK: usize = 4096;
+        let mut buf = Vec::with_capacity(n.min(CHUNK));
+        let mut chunk = [0u8; CHUNK];
+        while buf.len() < n {
+            let step = (n - buf.len()).min(CHUNK);
+            self.read_exact(&mut chunk[..step])?;
+            buf.extend_from_slice(&chunk[..step]);
+        }
         Ok(buf)
     }
 
